@@ -764,10 +764,16 @@ def install(root, mounts, uid, plan, logfd):
         import trashcli.put.clock as _clk
         fixed = _dt.datetime.strptime(plan['put_clock'], '%Y-%m-%dT%H:%M:%S')
 
+        _tick = [0, int(plan.get('put_clock_tick') or 0)]
+
         class _FakeDatetimeClass(object):
             @staticmethod
             def now():
-                return fixed
+                # (put_clock_tick: every reading is that many seconds later
+                # than the one before - a move that takes its time)
+                t_ = fixed + _dt.timedelta(seconds=_tick[0])
+                _tick[0] += _tick[1]
+                return t_
 
         class _FakeDatetimeModule(object):
             datetime = _FakeDatetimeClass
